@@ -947,6 +947,12 @@ def extra_inputs(kind: str, name: str, seed: int) -> dict:
             w = (torch.randint(1, 5, shape, generator=g).float()) if i % 2 == 0 else [2.0, 3][i // 2]
             ups.append((x, y, w))
         return {"ups": ups}
+    if kind == "int-input-scale":
+        n = 200
+        return {"x": torch.randint(0, 50, (n,), generator=g), "w": torch.randint(1, 5, (n,), generator=g).to(torch.float32)}
+    if kind == "narrow-relabel":
+        n, C = 300, 20
+        return {"pred": torch.randint(0, C, (n,), generator=g), "tgt": torch.randint(0, C, (n,), generator=g), "sigma": torch.randperm(C, generator=g)}
     if kind == "big-dup":
         # an evaluation set large enough that #positives x #negatives of a one-vs-rest problem passes 2^31 once it is duplicated
         # (50 000 samples, one class holding half): integer products / cumulative counts in a narrow dtype wrap only here
@@ -978,6 +984,27 @@ def extra_verdict(kind: str, name: str, inp: dict) -> tuple[bool, str]:
         a, b = fns[name](x), fns[name](z)
         ok = torch.equal(a.to(torch.float64), b.to(torch.float64))
         return ok, f"{name} on float64 scores 0.5 + j·2^-40 gives {a.reshape(-1)[:6].tolist()}…, on their zoom (x−0.5)·2^30 {b.reshape(-1)[:6].tolist()}… (mean {float(a.double().mean()):.6f} vs {float(b.double().mean()):.6f})"
+    if kind == "int-input-scale":
+        # values held in an INTEGER tensor (counts, lengths), weights a float tensor: multiplying every weight by a power of two must not
+        # change the weighted mean — also when the scaled weights are no longer integers
+        x, w = inp["x"], inp["w"]
+        f = {"mean": lambda ww: F.mean(x, ww), "Mean": lambda ww: M.Mean().update(x, weight=ww).compute()}[name]
+        a = f(w).double()
+        for c in (0.25, 0.125, 2.0 ** -10, 8.0):
+            b = f(w * c).double()
+            if not torch.allclose(a, b, rtol=1e-6, atol=0):
+                return False, f"{name} of an int64 tensor with float weights gives {a.item()}, with all weights × {c} it gives {b.item()}"
+        return True, f"{name}: invariant under weight scaling on integer-typed values"
+    if kind == "narrow-relabel":
+        # class ids stored in a narrow integer dtype, 20 classes: renaming the classes permutes rows and columns of the confusion matrix
+        pred, tgt, sg = inp["pred"], inp["tgt"], inp["sigma"]
+        C = int(sg.numel())
+        dt = {"uint8": torch.uint8, "int8": torch.int8, "int16": torch.int16}[name.split("[")[1].rstrip("]")]
+        # (only the labels are narrow: with BOTH arguments narrow the function refuses the dtype — "indices must be an int64 tensor")
+        a = F.multiclass_confusion_matrix(pred, tgt.to(dt), num_classes=C)
+        b = F.multiclass_confusion_matrix(sg[pred], sg[tgt].to(dt), num_classes=C)
+        ok = bool(torch.equal(a.double(), b.double()[sg][:, sg]))
+        return ok, f"multiclass_confusion_matrix on {dt} class ids, 20 classes: relabelled result is {'the permuted matrix' if ok else 'NOT the permuted matrix'} (total {int(a.sum())} vs {int(b.sum())}, diagonal {int(a.diag().sum())} vs {int(b.diag().sum())})"
     if kind == "big-dup":
         x, tgt = inp["x"], inp["tgt"]
         y01 = (tgt == 0).long()
@@ -1040,6 +1067,8 @@ def extra_inputs_from_json(j: dict) -> dict:
 
 
 EXTRA = ([("fine-scale", n) for n in ("hit_rate", "reciprocal_rank", "HitRate", "ReciprocalRank", "multiclass_accuracy[k=3]", "binary_auroc", "binary_auprc", "retrieval_precision")]
+         + [("int-input-scale", n) for n in ("mean", "Mean")]
+         + [("narrow-relabel", n) for n in ("multiclass_confusion_matrix[uint8]", "multiclass_confusion_matrix[int8]", "multiclass_confusion_matrix[int16]")]
          + [("big-dup", n) for n in ("multiclass_auroc", "multiclass_auprc", "binary_auroc", "binary_auprc")]
          + [("mixed-weight-scale", n) for n in ("WeightedCalibration", "WeightedCalibration[tasks=2]", "WindowedWeightedCalibration", "ClickThroughRate", "ClickThroughRate[tasks=2]", "WindowedClickThroughRate")])
 
